@@ -1,4 +1,6 @@
 import Proofs.FilterCtlLive
+import Proofs.FilterCtlFifo
+import Properties.C17
 /-!
 # C12 — Filter output does not depend on thread count, batch size or scheduling
 
@@ -77,6 +79,31 @@ thread, so no schedule runs forever. -/
 theorem ctl_terminates (cfg : Cfg α) (s s' : State α) (t : Tid) (hst : step cfg s t = some s') :
     measure cfg s' < measure cfg s :=
   measure_decreases cfg t hst
+
+/-! ### the FIFO assumption
+
+`FilterCtl` treats `filter_.in_`, `output_.in_` and `to_read_` as atomic bounded FIFOs.  This is
+not an extra axiom: (1) every step of every thread touches each queue by at most one
+`KV.Chain.fifoPush cfg.queue` / `KV.Chain.fifoPop` (`ctl_queues_are_fifo`), and (2) property
+C17's `KV.C17.pcqueue_refines_fifo` proves that the step-level model of `util::PCQueue` (two
+semaphores, two mutexes, ring buffer; every interleaving) refines exactly these two operations,
+each linearised between the call and the return of its `Produce` / `Consume`
+(`pcqueue_is_fifo` re-exports it so that the dependency is checked by the build).  What remains
+assumed is that thread-local work on an exclusively owned batch commutes with other threads. -/
+
+theorem ctl_queues_are_fifo (cfg : Cfg α) (s s' : State α) (t : Tid) (hst : step cfg s t = some s') :
+    QueuesFifo cfg s s' :=
+  step_queues_fifo cfg t hst
+
+/-- C17's refinement theorem, restated for the capacity of the filter's queues: along every
+schedule of any producers `ps` / consumers `qs` the linearised operations of the PCQueue
+implementation model are a run of the atomic FIFO of capacity `cfg.queue`. -/
+theorem pcqueue_is_fifo (cfg : Cfg α) (hq : 0 < cfg.queue) (ps : List (List Nat)) (qs : List Nat)
+    (sched : List Nat) (s : KV.PCQueue.State)
+    (hrun : KV.PCQueue.runSched (KV.PCQueue.mkInit cfg.queue ps qs) sched = some s) :
+    KV.PCQueue.fifoRun cfg.queue [] (KV.PCQueue.events (KV.PCQueue.mkInit cfg.queue ps qs) sched)
+      = some (KV.PCQueue.absBuf s) :=
+  (KV.C17.pcqueue_refines_fifo (cap := cfg.queue) (ps := ps) (qs := qs) hq).2 sched s hrun
 
 /-! Non-vacuity: a concrete finished run with two workers, reordered completions. -/
 section Example
